@@ -1,9 +1,21 @@
-/-! Model of `optimalPartition` (algo/segmentation.py), function style with fuel.
-    `better a b` is the strict test of the selected direction (`a < b` to minimise, `a > b` to maximise). -/
+/-! Model of `optimalPartition`, `backtracking`, `backward`, `optimalSegmentation` (algo/segmentation.py)
+and of `optimalSimplification` / the two "free" modes of `simplify` (algo/simplification.py).
+
+Two forms:
+* the *table* form (`optimalPartition`, run by the driver) mirrors the Python line by line: `N = rows − 1`,
+  tables `D`, `M` initialised on the upper triangle, filled in place by increasing diagonals, both
+  direction tests as written, `backward`/`backtracking` on `M`;
+* the *function* form (`opt`, fuel-indexed interval recursion with the strict scan) is what the optimality
+  lemmas are proved about; `Lemmas/PartitionTable.lean` proves the two equal.
+
+`better a b` is the strict test of the selected direction (`a < b` to minimise, `a > b` to maximise).
+Core Lean only; polymorphic in the scalar (`Rat`/`Int` and `Float` in the driver, an ordered monoid in the proofs). -/
 namespace TV.Partition
 variable {α : Type}
 
-/-- `for k in range(lo, hi): val = f k; if better val best: best = val; arg = k` -/
+/-! ## function form -/
+
+/-- `for k in range(lo, lo+n): val = f k; if better val best: best = val; arg = k` -/
 def scan (better : α → α → Bool) (f : Nat → α) : Nat → Nat → α × Option Nat → α × Option Nat
   | _, 0, acc => acc
   | lo, n+1, acc =>
@@ -11,9 +23,109 @@ def scan (better : α → α → Bool) (f : Nat → α) : Nat → Nat → α × 
     let k := lo + n
     if better (f k) acc'.1 then (f k, some k) else acc'
 
-/-- D[i,j] (value) and M[i,j] (split point), fuel = span -/
+/-- D[i,j] (value) and M[i,j] (split point, `none` = −1), fuel ≥ span − 1 -/
 def opt (better : α → α → Bool) (add : α → α → α) (cost : Nat → Nat → α) : Nat → Nat → Nat → α × Option Nat
   | 0, i, j => (cost i j, none)
   | f+1, i, j =>
     scan better (fun k => add (opt better add cost f i k).1 (opt better add cost f k j).1) (i+1) (j - i - 1) (cost i j, none)
+
+/-! ## table form -/
+
+/-- `for x in range(lo, lo+n): s = body x s` -/
+def loop {σ : Type} (lo : Nat) : Nat → (Nat → σ → σ) → σ → σ
+  | 0, _, s => s
+  | n+1, body, s => body (lo + n) (loop lo n body s)
+
+/-- in-place assignment `T[i,j] = v` on a table seen as a function of its two indices -/
+def upd {β : Type} (T : Nat → Nat → β) (i j : Nat) (v : β) : Nat → Nat → β :=
+  fun a b => if a = i ∧ b = j then v else T a b
+
+/-- the two numpy tables: `D` (best value) and `M` (best split point, −1 = none; floats holding integers in Python) -/
+structure Tabs (α : Type) where
+  D : Nat → Nat → α
+  M : Nat → Nat → Int
+
+/-- `D = zeros((N,N)); M = zeros((N,N)); for i in range(N): for j in range(i,N): D[i,j] = C[i,j]; M[i,j] = -1` -/
+def init (zero : α) (N : Nat) (C : Nat → Nat → α) : Tabs α :=
+  { D := fun i j => if i ≤ j ∧ j < N then C i j else zero
+    M := fun i j => if i ≤ j ∧ j < N then -1 else 0 }
+
+variable [Add α] [LT α] [DecidableLT α]
+
+/-- the strict test selected by `mode` (0 = MINIMIZE: `a < b`, 1 = MAXIMIZE: `a > b`, anything else: never) -/
+def better (mode : Nat) (a b : α) : Bool :=
+  (mode == 0 && decide (a < b)) || (mode == 1 && decide (a > b))
+
+/-- body of the `k` loop, both tests as written (`mode` is compared with the constants 0 = MINIMIZE, 1 = MAXIMIZE;
+the second test reads `D[i,j]` after the first assignment) -/
+def stepK (mode i j k : Nat) (t : Tabs α) : Tabs α :=
+  let val := t.D i k + t.D k j
+  let t1 : Tabs α := if val < t.D i j ∧ mode = 0 then ⟨upd t.D i j val, upd t.M i j (k : Int)⟩ else t
+  if val > t1.D i j ∧ mode = 1 then ⟨upd t1.D i j val, upd t1.M i j (k : Int)⟩ else t1
+
+/-- `for k in range(i+1, j): …` -/
+def cellLoop (mode i j : Nat) (t : Tabs α) : Tabs α :=
+  loop (i + 1) (j - (i + 1)) (stepK mode i j) t
+
+/-- `for i in range(0, N - diag): j = i + diag; …` -/
+def diagLoop (mode N diag : Nat) (t : Tabs α) : Tabs α :=
+  loop 0 (N - diag) (fun i t => cellLoop mode i (i + diag) t) t
+
+/-- `for diag in range(2, N): …` -/
+def fill (mode N : Nat) (t : Tabs α) : Tabs α :=
+  loop 2 (N - 2) (fun diag t => diagLoop mode N diag t) t
+
+/-- `backtracking(B, i, j)`; the recursion is on `(i, id)` and `(id, j)` with `i < id < j` whenever `B` was
+produced by `fill`, so fuel `j − i` suffices (proved); out of fuel returns `[i]`. -/
+def backtracking (B : Nat → Nat → Int) : Nat → Nat → Nat → List Nat
+  | 0, i, _ => [i]
+  | f+1, i, j =>
+    if B i j < 0 ∨ (if i ≤ j then j - i else i - j) ≤ 1 then [i]
+    else
+      let id := (B i j).toNat
+      backtracking B f i id ++ backtracking B f id j
+
+/-- `backward(B)`: `n = B.shape[0]` -/
+def backward (B : Nat → Nat → Int) (n : Nat) : List Nat :=
+  backtracking B n 0 (n - 1) ++ [n - 1]
+
+/-- tables after the dynamic programme -/
+def tables (zero : α) (rows : Nat) (C : Nat → Nat → α) (mode : Nat) : Tabs α :=
+  fill mode (rows - 1) (init zero (rows - 1) C)
+
+/-- `optimalPartition(cost_matrix, mode)` for a `rows × rows` matrix with `rows ≥ 2` (`N = rows − 1 ≥ 1`).
+(`rows = 1` raises IndexError in `backward`, `rows = 0` ValueError in `np.zeros`: handled by the driver.) -/
+def optimalPartition (zero : α) (rows : Nat) (C : Nat → Nat → α) (mode : Nat) : List Nat :=
+  backward (tables zero rows C mode).M (rows - 1)
+
+/-- summed segment cost of an index list -/
+def pathCost (zero : α) (C : Nat → Nat → α) : List Nat → α
+  | a :: b :: rest => C a b + pathCost zero C (b :: rest)
+  | _ => zero
+
+/-! ## front ends -/
+
+/-- the matrix built by `optimalSegmentation` for a track of `size` observations:
+`C = zeros((size,size)); for i in range(size-2): for j in range(i, size-1): C[i,j] = cost(track, i, j-1)`
+then `C = C + C.T`. `cost i e` stands for `cost(track, i, e[, glob_param])` with `e = j − 1` (an `Int`: `j = i = 0` gives −1). -/
+def segMatrix (zero : α) (size : Nat) (cost : Nat → Int → α) : Nat → Nat → α :=
+  let C0 : Nat → Nat → α := fun i j => if i + 2 < size ∧ i ≤ j ∧ j + 1 < size then cost i ((j : Int) - 1) else zero
+  fun i j => C0 i j + C0 j i
+
+/-- `optimalSegmentation(track, cost, glob_param, mode)` -/
+def optimalSegmentation (zero : α) (size : Nat) (cost : Nat → Int → α) (mode : Nat) : List Nat :=
+  optimalPartition zero size (segMatrix zero size cost) mode
+
+/-- `optimalSimplification(track, cost, eps, mode)`: the `mode` argument is NOT forwarded (the code calls
+`optimalSegmentation(track, cost, eps)`), so the default MINIMIZE is always used; the result keeps the
+observations at the selected indices. -/
+def optimalSimplification {ω : Type} (zero : α) (obs : List ω) (cost : Nat → Int → α) (_mode : Nat) : List ω :=
+  (optimalSegmentation zero obs.length cost 0).filterMap (fun i => obs[i]?)
+
+/-- `simplify(track, tolerance, mode)` for the two "free" modes: 7 = MODE_SIMPLIFY_FREE calls
+`optimalSimplification(track, tolerance, None, verbose)` (verbose lands in the ignored `mode` slot);
+8 = MODE_SIMPLIFY_FREE_MAXIMIZE passes five positional arguments to the four-parameter function: `TypeError` (`none`). -/
+def simplifyFree {ω : Type} (zero : α) (obs : List ω) (cost : Nat → Int → α) (mode : Nat) : Option (List ω) :=
+  if mode = 7 then some (optimalSimplification zero obs cost 1)
+  else none
 end TV.Partition
